@@ -523,7 +523,7 @@ int main(void)
         for (ci = 0; ci < nc; ci++) if (edn[ci] != w * h || ddn[ci] != w * h) bad = 1;
         if (bad) { printf("fail observer-count\n"); continue; }
         printf("ok ed"); print_group(ed, nc, w * h); printf(" ; dd"); print_group(dd, nc, w * h);
-        printf(" ; out"); print_group(outp, nc, w * h); printf("%s\n", summary);
+        printf(" ; out"); print_group(outp, nc, w * h); printf("%s ; lz ok\n", summary);
       } else if (!strcmp(kind, "tj")) {
         unsigned char *jpg = NULL; size_t js = 0; char why[256]; int rc, i;
         rc = tj_roundtrip(prec, w, h, nc, rmode, rval, pf, bottomup, pad, pp[0], pp[1], &jpg, &js, why);
@@ -536,10 +536,10 @@ int main(void)
         if (hook_problem) { printf("fail observer\n"); continue; }
         for (ci = 0; ci < nc; ci++) { if (ddn[ci] != w * h) bad = 1; for (i = 0; i < w * h; i++) if (outp[ci][i] != outp2[ci][i]) bad = 2; }
         if (bad == 2 && susmode) {     /* report what the suspended libjpeg decode delivered */
-          printf("ok ed - ; dd"); print_group(dd, nc, w * h); printf(" ; out"); print_group(outp2, nc, w * h); printf("%s\n", summary); continue;
+          printf("ok ed - ; dd"); print_group(dd, nc, w * h); printf(" ; out"); print_group(outp2, nc, w * h); printf("%s ; lz ok\n", summary); continue;
         }
         if (bad) { printf("fail %s\n", bad == 1 ? "observer-count" : "tj3Decompress-differs-from-jpeg_read_scanlines"); continue; }
-        printf("ok ed - ; dd"); print_group(dd, nc, w * h); printf(" ; out"); print_group(outp, nc, w * h); printf("%s", summary);
+        printf("ok ed - ; dd"); print_group(dd, nc, w * h); printf(" ; out"); print_group(outp, nc, w * h); printf("%s ; lz ok", summary);
         printf(" ; buf");
         if (rawn < 0) printf(" -"); else for (i = 0; i < rawn; i++) printf(" %d", rawbuf[i]);
         printf("\n");
